@@ -103,7 +103,7 @@ static void loop_scenario(rng &r0, int reactor, int producers, int actions, std:
 			else if (k < 72) {
 				// a timer a little ahead, cancelled at once by its owner (a raw id may be reused once its timer has fired, so raw ids are
 				// never cancelled after the deadline may have passed; cancel-versus-expiry races go through deadline_timer objects below)
-				ptime when = ptime::now() + ptime::from_number(0.5 + r.below(3));
+				ptime when = ptime::now() + ptime::from_number(60 + r.below(3));   // far enough that a stalled producer still cancels first
 				long id = lb.add(K_TIMER_CANCEL, ptime::to_number(when)); ev_handler h = { &lb, id, 0 };
 				int tid = srv.set_timer_event(when, h);
 				lb.mark_cancel(id); srv.cancel_timer_event(tid);
@@ -210,7 +210,11 @@ static void object_scenario(rng &r, int reactor)
 	struct ctl { std::vector<std::unique_ptr<aio::deadline_timer> > *t; std::vector<bool> *c; logbook *lb; std::vector<long> *ids; aio::stream_socket *s; uint64_t seed; void operator()() const { rng q(seed); for (size_t i = 0; i < t->size(); i++) if (q.chance(1, 3)) { (*c)[i] = true; lb->mark_cancel((*ids)[i]); (*t)[i]->cancel(); } s->close(); } };
 	ctl c = { &timers, &cancelled, &lb, &ids, &s1, r.next() };
 	if (r.chance(1, 2)) srv.post(c); else { ptime::millisleep(2); srv.post(c); }
-	struct stopper { aio::io_service *s; void operator()(booster::system::error_code const &) const { s->stop(); } };
+	// the end of the scenario is decided by order, not by the wall clock: when the (latest) timer fires it posts a handler that posts
+	// the handler that stops the loop, so everything that was ready or queued by then runs first even if the loop started late
+	struct stop2 { aio::io_service *s; void operator()() const { s->stop(); } };
+	struct stop1 { aio::io_service *s; void operator()() const { stop2 h = { s }; s->post(h); } };
+	struct stopper { aio::io_service *s; void operator()(booster::system::error_code const &) const { stop1 h = { s }; s->post(h); } };
 	stopper st = { &srv };
 	srv.set_timer_event(ptime::now() + ptime::from_number(0.05), st);
 	srv.run();
@@ -306,7 +310,11 @@ static void slot_reuse_scenario(rng &r, int reactor, int far_count)
 	first_handler fh = { &srv, &t1, &fresh, &fresh_ids, &lb, K, ida };
 	ta.async_wait(fh);
 	{ ev_handler h = { &lb, id1, 0 }; t1.async_wait(h); }
-	struct stopper { aio::io_service *s; void operator()(booster::system::error_code const &) const { s->stop(); } };
+	// the end of the scenario is decided by order, not by the wall clock: when the (latest) timer fires it posts a handler that posts
+	// the handler that stops the loop, so everything that was ready or queued by then runs first even if the loop started late
+	struct stop2 { aio::io_service *s; void operator()() const { s->stop(); } };
+	struct stop1 { aio::io_service *s; void operator()() const { stop2 h = { s }; s->post(h); } };
+	struct stopper { aio::io_service *s; void operator()(booster::system::error_code const &) const { stop1 h = { s }; s->post(h); } };
 	stopper st = { &srv };
 	srv.set_timer_event(ptime::now() + ptime::from_number(0.02), st);
 	srv.run();
